@@ -110,10 +110,24 @@ Definition items_size (its : list item) : nat :=
 Definition strip_final_nl (t : text) : text :=
   match rev t with 10 :: r => rev r | _ => t end.
 
+(* what the strategy lines of a style amount to: the text after ";strategy" and one more character, line by line;
+   a line with nothing after the keyword, or with another spelling of it, adds nothing *)
+Definition strategy_meta (s : N) : text :=
+  match pick s 21 4 with
+  | 0 => s2t "bomb the core, then clear it" ++ [10] ++ s2t "x" ++ [10]
+  | 1 => s2t " second line" ++ [10]
+  | _ => []
+  end.
+
 Definition render (s : N) (p : prog) : text :=
   (if pick s 17 5 =? 0 then strip_final_nl else fun t => t)
   ((match pr_name p with Some n => s2t ";name " ++ n ++ [10] | None => [] end)
   ++ (match pr_author p with Some n => s2t ";author " ++ n ++ [10] | None => [] end)
+  (* strategy lines are metadata too: in some styles a few of them, one empty, one short *)
+  ++ (match pick s 21 4 with
+      | 0 => s2t ";strategy bomb the core, then clear it" ++ [10] ++ s2t ";strategy" ++ [10] ++ s2t ";strategy x" ++ [10]
+      | 1 => s2t ";Strategy not the lower-case keyword" ++ [10] ++ s2t ";strategy  second line" ++ [10]
+      | _ => [] end)
   ++ (match pr_org p with
       | Some e => optgap s 1 ++ recase s 2 (s2t "ORG") ++ gap s 3 ++ render_expr s 4 e ++ trailer s 5
       | None => [] end)
